@@ -552,14 +552,16 @@ class SessionDescription:
                         codec.parameters = parameters_from_sdp(format_desc)
                     elif attr == "rtcp-fb":
                         bits = value.split(" ", 2)
+                        feedback = RTCRtcpFeedback(
+                            type=bits[1],
+                            parameter=bits[2] if len(bits) > 2 else None,
+                        )
                         for codec in current_media.rtp.codecs:
-                            if bits[0] in ["*", str(codec.payloadType)]:
-                                codec.rtcpFeedback.append(
-                                    RTCRtcpFeedback(
-                                        type=bits[1],
-                                        parameter=bits[2] if len(bits) > 2 else None,
-                                    )
-                                )
+                            if (
+                                bits[0] in ["*", str(codec.payloadType)]
+                                and feedback not in codec.rtcpFeedback
+                            ):
+                                codec.rtcpFeedback.append(feedback)
 
         return session
 
